@@ -9,8 +9,8 @@ CLAIMS = {
    text='Bounded symbolic verification (binding audit): every acyclic path of decode_compact/flattened/general, expand_payload, decode_signature, DecodedHeaders, '
         'JwsValidationItem::verify and Jwk::check_alg is executed from the freshly dumped MIR with callee results unconstrained; z3 decides per requirement whether a '
         'feasible accepting path exists that does not bind signing input / signature / claims / alg / key to the bytes received. Candidates are replayed natively.'
-        " Also: the bundled ECDSA / EdDSA verifiers dispatch on input.alg only; JwsValidationItem::nonce/kid/alg/protected_header are the protected header's values; the general-serialization iterator is audited end-to-end with its helpers inlined.",
-   note='Trusted: rustc MIR dump, mir2smt and its core-function models, z3. Outside: serde parsing, cryptographic verifiers, byte-level base64url (K part, thorough).',
+        " Also: the bundled ECDSA / EdDSA verifiers dispatch on input.alg only; JwsValidationItem::nonce/kid/alg/protected_header are the protected header's values; the general-serialization iterator is audited end-to-end with its helpers inlined. jwu::decode_b64 / encode_b64 (and their JSON forms) are exactly the strict Base64Url engine on the whole input; the scheme verifiers hand the whole decoded signature and the item's signing input to the primitive and build EC keys from the uncompressed point of both JWK coordinates.",
+   note='Trusted: rustc MIR dump, mir2smt and its core-function models, z3. Outside: serde parsing, the cryptography inside the verifiers, the multibase Base64Url engine itself.',
    technique=TECH_M, ref='DESIGN.md section 2 C01'),
  'C02': dict(
    text='Binding audit of validate / verify_signature_with_verifier / parse_jwk / verify_decoded_signature plus semantic evaluation of the validation-unit iterator '
@@ -26,63 +26,63 @@ CLAIMS = {
  'C04': dict(
    text='M: one inductive step of every checked mutator and resolver of CoreDocument from an arbitrary document (sets opaque): which of the seven sets is touched '
         'for which scope/relationship under which guard, refused operations perform no mutation, scoped/unscoped resolution order, query matching; '
-        'constructor gate check_id_constraints with its loops unrolled twice.'
+        'constructor gate check_id_constraints with its loops unrolled twice (every id read is recorded in / checked against the identifier map); insert_method asks every relationship set by query.'
         ' Also remove_method_and_scope (loop unrolled 6x) and the DIDUrlQuery conversions from typed values (the query carries the whole text).',
    note='Trusted as C01. Outside: JSON round trip, OrderedSet operations (C19), whole-document invariant beyond 2 entries per loop.',
    technique=TECH_M, ref='DESIGN.md section 2 C04'),
  'C05': dict(
-   text='M panic-reachability sweep: 46 parsing / decoding / validating entry points executed symbolically from MIR with callee results unconstrained; every MIR assert '
-        '(overflow, index, slice), every unwrap/expect on a callee outcome and every panic-capable std callee (Index/IndexMut, split_at, copy_from_slice, Vec/String index operations, date-time arithmetic, RefCell) whose precondition the path does not imply is a panic outcome; same-file helpers are inlined; reachable ones must be on the explicit contract list (each with the '
+   text='M panic-reachability sweep: 67 parsing / decoding / validating entry points (incl. SD-JWT VC claim paths / token validation and the bundled Ed25519 / ES256 / ES256K verifiers) executed symbolically from MIR with callee results unconstrained; every MIR assert '
+        '(overflow, index, slice), every unwrap/expect on a callee outcome and every panic-capable std callee (Index/IndexMut, split_at, copy_from_slice, Vec/String index operations, date-time arithmetic, RefCell, char boundaries of str/String byte offsets, conversions into fixed-size GenericArrays) whose precondition the path does not imply is a panic outcome; same-file helpers are inlined; reachable ones must be on the explicit contract list (each with the '
         'obligation establishing it). Complements the precise panic-freedom obligations of C12 (status list) and the K range-gate harnesses of C13.',
-   note='Trusted as C01. Outside: panics inside non-inlined third-party callees (serde_json, did_url_parser, time, url, flate2, roaring), serde derives, SD-JWT VC.',
+   note='Trusted as C01. Outside: panics inside non-inlined third-party callees (serde_json, did_url_parser beyond its cursor kernel, time, url, flate2, roaring), serde derives, async metadata fetching of SD-JWT VC.',
    technique=TECH_M, ref='DESIGN.md section 2 C05'),
  'C06': dict(
    text='M: the legacy-format detector literal (read from the MIR) decided by z3 against the Base64Url text of every zlib default-compression stream (symbolic first deflate '
         'byte) and of its legacy double encoding; binding audit of the encode/decode pipeline, endpoint prefix handling, the document read-modify-write, the per-index '
         'revoke/unrevoke closures (lists <= 2) and revoked-iff-member in the status check.'
-        " Also: compress_zlib uses the default compression level on every path (the detector's premise); the revoke/unrevoke closures iterate the listed indices and touch the bitmap only per index.",
+        " Also: compress_zlib uses the default compression level on every path (the detector's premise); the revoke/unrevoke closures iterate the listed indices and touch the bitmap only per index; deserialize_slice / serialize_vec are exactly roaring's reader / writer on the whole data; decompress_zlib is the streaming decoder run to the end; the bitmap service is looked up by the whole status id; C02's status-unit obligation is re-used.",
    note='Trusted as C01. Outside: roaring set semantics and serialisation, zlib, base64 codec; large sets are exercised only by the native confirmation battery.',
    technique='SMT query over the symbolic deflate byte (z3, bit-vector base64 model) + ' + TECH_M, ref='DESIGN.md section 2 C06'),
  'C07': dict(
    text='M: losslessness as wiring - for every credential/presentation field the claims location written by `new` equals the location read by try_into_*, '
         'duplicated members are omitted from vc/vp, dates pass through to_unix/from_unix; binding audit of both check_consistency functions (every duplicated '
         'member compared with its registered claim) and of nbf-else-iat through the year gate.'
-        " Also: optional members keep their presence (source forced to Some(_)), and C03's validate obligation for the presentation dates.",
+        " Also: optional members keep their presence (source forced to Some(_)), presentation option members are present exactly when the option is, a re-shaped value on the way back is a violation, equality of the credential / presentation types is the derived structural one, the claims types have no custom per-field deserialiser, and C03's validate obligation for the presentation dates.",
    note='Trusted as C01. Outside: the JSON text form (serde attributes), multi-subject credentials, to_unix/from_unix inverse (C13).',
    technique=TECH_M, ref='DESIGN.md section 2 C07'),
  'C08': dict(
    text='M: mirror image of C01 on the producing side - the three encoders sign create_message(protected segment placed in the token, payload placed in the token), '
         'emit exactly those strings plus base64url(signature), prepare the payload by b64 of the protected header, validate unencoded compact payloads; '
         'RFC 7797 5.2 character-set kernels over every char.'
-        ' K: CharSet::validate on every 1- and 2-byte string for both sets. Re-used obligations: C11 general-encoder, C01 item accessors, C03 verify_jws, C04 resolve_method.',
+        ' K: CharSet::validate on every 1- and 2-byte string for both sets. Re-used obligations: C11 general-encoder, C01 item accessors and codec binding, C03 verify_jws, C04 resolve_method. M (fault-schedule mode): the storage-backed JwkDocumentExt::create_jws - on every successful path of the async body the protected header is exactly what the options ask for, the key id is looked up for the resolved method, the signer gets that key id and the encoder signing input, the token is the encoder output; header Serialize skips members only when absent.',
    note='Trusted as C01. Outside: serde_json text of flattened/general envelopes (a JSON-escaping defect observed natively is described in DESIGN.md), '
-        'JwkDocumentExt::create_jws (async state machine), real signatures.',
+        'create_credential_jwt / create_presentation_jwt (claim serialisation in front of create_jws), real signatures.',
    technique='Kani/CBMC bounded model checking of the compiled functions on short symbolic inputs + ' + TECH_M, ref='DESIGN.md section 2 C08'),
  'C09': dict(
    text='M over the async state machines: generate_method / purge_method / try_undo_key_generation (CoreDocument and IotaDocument) executed symbolically from their '
         'initial state with every storage-call result unconstrained - the fault schedule is a set of symbolic variables and every subset of failing calls is a path. '
         'Success only with method + key + key id in place; every plain error undoes key generation / restores the document and key id; UndoOperationFailed only in '
         'the documented patterns; rollback completeness against what remove_method_and_scope destroys.'
-        ' Failures of the document insertion / method construction are in scope; an ignored clean-up outcome is a violation.',
+        ' Failures of the document insertion / method construction are in scope; an ignored clean-up outcome is a violation; C04 insert_method guard re-used.',
    note='Trusted as C01; awaited futures complete on first poll (no interleaving inside join!). Outside: real stores (C15), non-storage failures, insert/remove_method themselves (C04).',
    technique='MIR-to-SMT symbolic execution of the compiled async state machines (fault schedule as symbolic callee outcomes, z3 path feasibility)', ref='DESIGN.md section 2 C09'),
  'C10': dict(
    text='M kernels: the five DID character classes equal the W3C/RFC 3986 ABNF sets for every Unicode scalar value; M audit: every constructor of the plain DID type '
         'passes check_validity, DID-URL split validates and clears parts, join/setters validate before mutating; K (thorough): local validators on 3 symbolic bytes.'
-        " M kernels: is_valid_url_segment = *(pct-encoded | P) for every printable-ASCII string of 1..5 bytes and every predicate; the third-party did_url_parser's method-id cursor for ids <= 3 bytes (known finding: escape at the end overruns). K: valid_method_id on every ASCII string of length 0..3 and valid_method_name on lengths 0, 3 against the full W3C ABNF (known finding: trailing colon).",
+        " M kernels: is_valid_url_segment = *(pct-encoded | P) for every printable-ASCII string of 1..5 bytes and every predicate; the third-party did_url_parser's method-id cursor for ids <= 3 bytes (known finding: escape at the end overruns). K: valid_method_id on every ASCII string of length 0..3 and valid_method_name on lengths 0, 3 against the full W3C ABNF (known finding: trailing colon). M: valid_method_id / valid_method_name as scanners on every printable-ASCII string of length 0..4 against the ABNF; derived Deserialize of CoreDID / DIDUrl produces a value only through the validating TryFrom.",
    note='Trusted as C01 plus Kani/CBMC. Outside: the third-party did_url_parser on multi-position adversarial strings (its %XX index bug is described in DESIGN.md), did:jwk.',
    technique='Kani/CBMC bounded model checking of the compiled functions on short symbolic inputs + ' + TECH_M + '; Kani/CBMC harnesses for the loop-carrying validators', ref='DESIGN.md section 2 C10'),
  'C11': dict(
    text='M: validate_jws_headers is the conjunction of its three validators on (protected, unprotected); is_disjoint formulas over all presence patterns of all header '
         'fields; validate_b64; encoder gates; recipient b64 agreement. K: validate_crit decision table per concrete crit list with symbolic header presence bits.'
-        " Re-used: C01's verify obligation (alg only from the protected header).",
+        " Re-used: C01's verify obligation (alg only from the protected header). is_custom_disjoint compares custom parameters by name only (loop unrolled twice).",
    note='Trusted as C01 plus Kani/CBMC. Outside: header parameter values, custom-parameter maps.',
    technique=TECH_M + '; Kani/CBMC for validate_crit', ref='DESIGN.md section 2 C11'),
  'C12': dict(
    text='Bounded symbolic verification: StatusList2021::{set,get,len} translated from the freshly dumped MIR into SMT (arrays + bit-vectors) and '
         'decided by z3 (cvc5 cross-check) for a list of ANY length <= 2^60 bytes, every usize index and both values: panic freedom, Ok iff in range, '
         'read-after-write equals the bit-vector model for every other index; one-way revocation through MutStatusList and the credential. Counterexamples are replayed natively.'
-        ' Also: try_from_encoded_str = base64 -> gunzip -> read_to_end uncapped; check_status_with_status_list_2021 compares list id and purpose before reading the entry.',
+        ' Also: try_from_encoded_str = base64 -> gunzip -> read_to_end uncapped; check_status_with_status_list_2021 compares list id and purpose before reading the entry; StatusList2021Credential::update applies the caller function once and always stores the re-encoded list.',
    note='Trusted: rustc MIR dump, the mir2smt translator and its models of the listed core functions, z3/cvc5. Outside: gzip+base64 encoding (uninterpreted codec pair), '
         'check_status_with_status_list_2021.',
    technique='MIR-to-SMT symbolic execution (path enumeration, z3 verdict per path); Kani/CBMC harnesses on the public API',
@@ -90,39 +90,39 @@ CLAIMS = {
  'C13': dict(
    text='K: range gate, unix round trip, order and checked arithmetic for all seconds in windows round both range ends and 0; M: every constructor (parse, serde, FromStr, '
         'checked_add/sub) routes through the range gate and none uses a panicking offset conversion.'
-        ' M kernel: Duration unit constructors = count x unit over all 2^32 counts; a missing validating serde conversion is a candidate confirmed natively.',
+        ' M kernel: Duration unit constructors = count x unit over all 2^32 counts; a missing validating serde conversion is a candidate confirmed natively; checked_add / checked_sub return None only when the date arithmetic or the range gate refused.',
    note='Trusted as C01 plus Kani/CBMC. Outside: RFC 3339 text parser/formatter of the time crate, mid-range dates.',
    technique='Kani/CBMC over the compiled code in stated windows; ' + TECH_M, ref='DESIGN.md section 2 C13'),
  'C14': dict(
    text='M: StateMetadataDocument::unpack decided byte-precisely for inputs of every length (marker, version, encoding, 16-bit LE length, exact body slice, trailing bytes '
         'ignored, no panic); add_flags_to_message header bytes and 16-bit gate; rebasing closures rewrite only the placeholder / self id and are wired to the right fields.'
-        ' Also: DIDUrl / VerificationMethod / MethodRef / Service map and try_map and CoreDocumentData::try_map; the self-reference test compares whole identifiers; derived Serialize skips members only by is_none / is_empty.',
-   note='Trusted as C01. Outside: JSON body, CoreDocument::try_map/map_unchecked applying the closures (iterator code).',
+        ' Also: DIDUrl / VerificationMethod / MethodRef / Service map and try_map and CoreDocumentData::try_map; the self-reference test compares whole identifiers; derived Serialize skips members only by is_none / is_empty; CoreDocument::try_map / map_unchecked forward the four functions in their roles.',
+   note='Trusted as C01. Outside: JSON body.',
    technique='Kani/CBMC bounded model checking of the compiled functions on short symbolic inputs + ' + TECH_M, ref='DESIGN.md section 2 C14'),
  'C17': dict(
    text='M kernels: network-name character class == [a-z0-9] for every char and the 1..6 length gate; M audit: every constructor reaches try_from_core, which '
         'lower-cases, validates method == iota / 32-byte prefixed-hex tag component / network component and removes exactly the default network; component accessors recompose the method id.'
-        " K: validate_network_name on every ASCII string of length 0, 6, 7 (thorough: 1, 3). Infallible constructors return what parse accepted; C10's CoreDID gate obligations re-used.",
-   note='Trusted as C01. Outside: to_lowercase / prefix_hex internals, the generic parser (C10), equality <=> (network, tag bytes) is argued from the normal form.',
+        " K: validate_network_name on every ASCII string of length 0, 6, 7 (thorough: 1, 3). Infallible constructors return what parse accepted; C10's CoreDID gate obligations re-used; eq / ord / hash of IotaDID and CoreDID are the derived structural impls.",
+   note='Trusted as C01. Outside: to_lowercase / prefix_hex internals, the generic parser (C10), equality <=> (network, tag bytes): normal form, default network omitted and derived comparison are decided, the implication is argued.',
    technique='Kani/CBMC bounded model checking of the compiled functions on short symbolic inputs + ' + TECH_M, ref='DESIGN.md section 2 C17'),
  'C18': dict(
    text='M kernels over all presence patterns: per-family to_public drops exactly the private members and keeps the public ones, is_public iff no private member, '
         'family dispatch, kty/params coherence in new/from_params/set_kty/set_params, idempotence of the projection on key_ops (closure evaluated symbolically twice), '
         'thumbprint template = RFC 7638/8037 required members in lexicographic order, VerificationMethod::from_builder rejects non-public JWKs.'
-        ' from_builder accepts a JWK only on is_public() == true.',
+        ' from_builder accepts a JWK only on is_public() == true; the json-proof-token conversion declares the family of the parameters it builds.',
    note='Trusted as C01. Outside: serde untagged deserialisation, SHA-256, generated keys, member values.',
    technique='Kani/CBMC bounded model checking of the compiled functions on short symbolic inputs + ' + TECH_M, ref='DESIGN.md section 2 C18'),
  'C19': dict(
    text='K: OrderedSet<u8> append / prepend / remove as one inductive step from every duplicate-free state of the concrete length in the harness name (append, remove <= 3; prepend <= 2) with '
         'arbitrary arguments against a list model, TryFrom<Vec>/FromIterator on 3 arbitrary elements; M: OneOrSet::new_set / map / try_map and OneOrMany::from<Vec> normalisation, '
         'OneOrSet array deserialisation through the duplicate-rejecting constructor plus non-emptiness, OrderedSet derived Deserialize through TryFrom<Vec>, and OrderedSet::change '
-        '(replace/update) restricted to order-preserving vector operations (binding audit; its full list semantics is out of CBMC reach: 20-30 minute caps at length 1).',
-   note='Trusted as C01 plus Kani/CBMC. Outside: sets longer than the harness length, replace/update list semantics beyond the binding audit and the native battery, serde text forms, OneOrSet::append / OneOrMany::push.',
+        '(replace/update) restricted to order-preserving vector operations (binding audit; its full list semantics is out of CBMC reach: 20-30 minute caps at length 1); replace / update are exactly one change call with a key predicate; TryFrom<Vec> inserts element-wise through append; OneOrSet::append leaves the collection untouched on a refused duplicate; OneOrMany::from_iter normalises through From<Vec>.',
+   note='Trusted as C01 plus Kani/CBMC. Outside: sets longer than the harness length, replace/update list semantics beyond the binding audit and the native battery, serde text forms, OneOrMany::push.',
    technique='Kani/CBMC bounded model checking of one inductive step per operation + ' + TECH_M, ref='DESIGN.md section 2 C19'),
  'C16': dict(
    text='Binding audit of validate_key_binding_jwt (171 blocks, 100+ paths: typ, holder key in scope, signature, sd_hash, nonce, aud, iat window, no reachable panic), '
         'SD-JWT verify_signature (signature before disclosures, decoded claims feed the credential, issuer == kid DID) and validate_credential (same units as plain JWTs).'
-        " Re-used: C02's parse_jwk / verify_decoded_signature obligations.",
+        " Re-used: C02's parse_jwk / verify_decoded_signature obligations. The sd_hash input is the disclosure list as presented (no reshaping adaptor); panic models (char boundaries, String offsets) are switched on for the two no-panic obligations.",
    note='Trusted as C01. Outside: SdObjectDecoder::decode, hashing, JSON, crypto.',
    technique=TECH_M, ref='DESIGN.md section 2 C16'),
 }
